@@ -8,6 +8,12 @@ namespace Petl.Snapshot
 open Petl.Gen
 
 def expectedC08 : List (String × String) := [
+  ("file:comparison.py", "17971f67ee946013"),
+  ("file:config.py", "142bde514c82c29d"),
+  ("file:transform/basics.py", "ef1ded632cafe787"),
+  ("file:transform/setops.py", "6dff26ed32585dcd"),
+  ("file:transform/sorts.py", "137f7e8a70e043fe"),
+  ("file:util/base.py", "771a68108eeb730d"),
   ("transform.setops.ComplementView", "ed6c1a0856905afb"),
   ("transform.setops.IntersectionView", "b1a5362a08986fc1"),
   ("transform.setops.diff", "768b8676047eb145"),
